@@ -309,6 +309,11 @@ def run_engine(prop: str, tier: str, lean_modules: List[str], profiles: List[Pro
             if agree and prof.compare_surv and compute_surv(i.events) != m.surv:
                 agree = False
             hits = []
+            if i.alerts:
+                agree = False
+                what = {'covbad': "the counters coverage<>() produced do not satisfy start = success + failure + unwind for every rule and branch",
+                        'SHUF-BAD': "a control hook below a state-shuffling adaptor was handed the states in the wrong order"}
+                hits.append(('harness-alert', '; '.join(f"{what.get(a.split()[0], 'harness alert')}: '{a}'" for a in i.alerts[:3])))
             for oname, ofn in prof.oracles:
                 if oname == 'sem':
                     msg = ofn(c, i, sems.get(c.cid))
